@@ -18,8 +18,13 @@ class UnitSplit:
         self.f = ctx.fn(CD, "CombinedDataHandler.get_units")
         helpers = {"_get_unexpected_units", "_get_non_modeled_units", "_get_units_with_baseline_of_zero",
                    "_get_expected_geographic_unit_fips"}
-        for h in helpers | {"_fit_outlier_detection_model"}:
-            ctx.fn(CD, f"CombinedDataHandler.{h}")
+        # the helpers are looked through (inlined) for the analysis: one that a refactoring has already inlined into its caller is not missed
+        ctx.fn(CD, "CombinedDataHandler._fit_outlier_detection_model")
+        for h in helpers:
+            try:
+                ctx.fn(CD, f"CombinedDataHandler.{h}")
+            except AnalysisError:
+                pass
         self.b = ctx.builder(inline=lambda caller, call, callee: callee.cls is not None and callee.cls.name == "CombinedDataHandler"
                              and callee.name in helpers)
         self.s = self.b.summarize(self.f)
